@@ -3,6 +3,7 @@ use crate::errors::{Result, SvgdxError};
 use crate::events::InputEvent;
 use crate::expression::eval_attr;
 use crate::position::{BoundingBox, Size};
+use crate::transform_attr::TransformAttr;
 use crate::types::{attr_split, extract_urlref, strp, AttrMap, ClassList, ElRef};
 use crate::TransformConfig;
 
@@ -213,6 +214,11 @@ impl TransformerContext {
                         translate_y.map(|ty| strp(&ty)).unwrap_or(Ok(0.))?,
                     ));
                 }
+            }
+            // the instance's own transform applies on top of its x / y offset
+            if let (Some(transform), Some(bbox)) = (el.get_attr("transform"), &el_bbox) {
+                let transform: TransformAttr = transform.parse()?;
+                el_bbox = Some(transform.apply(bbox));
             }
         }
 
